@@ -17,30 +17,33 @@ InDeg(D, b) == Cardinality({t \in D : t[3] = b})
 Pred0(D, b) == IF InDeg(D, b) = 1 THEN (CHOOSE t \in D : t[3] = b)[1] ELSE NIL     \* NIL = none
 Bad0(D, b) == InDeg(D, b) >= 2
 Mentioned(D) == {b \in Bn : \E t \in D : t[1] = b \/ t[3] = b}
-\* the cycle walk, keys in BTreeMap order; state = [bad, visited] as functions over Mentioned
+\* the cycle walk, keys in BTreeMap order; state = [bad, visited]; visited[b] = number of the walk that reached b (0 = none).
+\* A node met again during the SAME walk lies on a cycle and gets labelled (also when the walk started on a tail).
 RECURSIVE Walk(_, _, _, _)
-Walk(D, key, cur, st) ==      \* cur = current predecessor term (NIL = none)
+Walk(D, walk, cur, st) ==      \* cur = current predecessor term (NIL = none)
   IF cur = NIL \/ cur \notin Mentioned(D) THEN st
-  ELSE IF cur = key THEN [st EXCEPT !.bad = [st.bad EXCEPT ![cur] = TRUE]]
-  ELSE IF st.bad[cur] \/ st.visited[cur] THEN st
-  ELSE Walk(D, key, Pred0(D, cur), [st EXCEPT !.visited = [st.visited EXCEPT ![cur] = TRUE]])
+  ELSE IF st.bad[cur] THEN st
+  ELSE IF st.visited[cur] = walk THEN [st EXCEPT !.bad = [st.bad EXCEPT ![cur] = TRUE]]
+  ELSE IF st.visited[cur] # 0 THEN st
+  ELSE Walk(D, walk, Pred0(D, cur), [st EXCEPT !.visited = [st.visited EXCEPT ![cur] = walk]])
 RECURSIVE Keys(_, _, _)
 Keys(D, ks, st) ==
   IF ks = <<>> THEN st
-  ELSE LET key == Head(ks) IN
-       IF key \notin Mentioned(D) \/ st.bad[key] \/ st.visited[key] THEN Keys(D, Tail(ks), st)
-       ELSE Keys(D, Tail(ks), Walk(D, key, Pred0(D, key), [st EXCEPT !.visited = [st.visited EXCEPT ![key] = TRUE]]))
-Labelled(D) == LET st0 == [bad |-> [b \in Bn |-> Bad0(D, b)], visited |-> [b \in Bn |-> FALSE]]
+  ELSE LET key == Head(ks)  walk == Rank(key) IN
+       IF key \notin Mentioned(D) \/ st.bad[key] \/ st.visited[key] # 0 THEN Keys(D, Tail(ks), st)
+       ELSE Keys(D, Tail(ks), Walk(D, walk, Pred0(D, key), [st EXCEPT !.visited = [st.visited EXCEPT ![key] = walk]]))
+Labelled(D) == LET st0 == [bad |-> [b \in Bn |-> Bad0(D, b)], visited |-> [b \in Bn |-> 0]]
                    st == Keys(D, <<B1, B2, B3>>, st0)
                IN {b \in Mentioned(D) : st.bad[b]}
 \* ---- build_subject_types ----
 IsSubject(D, s) == \E t \in D : t[1] = s
 SubTree0(D, s) == s \in Bn /\ IsSubject(D, s) /\ s \notin Labelled(D) /\ InDeg(D, s) = 1
 \* ---- build_lists ----
-ListItem(D, s) ==      \* Some(value) iff exactly one rdf:first and no property other than first/rest; NIL = None
+ListItem(D, s) ==      \* Some(value) iff exactly one rdf:first, at most one rdf:rest and no other property; NIL = None
   LET firsts == {t \in D : t[1] = s /\ t[2] = FIRST}
+      rests == {t \in D : t[1] = s /\ t[2] = REST}
       others == {t \in D : t[1] = s /\ t[2] \notin {FIRST, REST}}
-  IN IF Cardinality(firsts) = 1 /\ others = {} THEN [some |-> TRUE, v |-> (CHOOSE t \in firsts : TRUE)[3]] ELSE [some |-> FALSE]
+  IN IF Cardinality(firsts) = 1 /\ others = {} /\ Cardinality(rests) <= 1 THEN [some |-> TRUE, v |-> (CHOOSE t \in firsts : TRUE)[3]] ELSE [some |-> FALSE]
 RestQuads(D) == {t \in D : t[1] \in Bn /\ t[2] = REST /\ SubTree0(D, t[1])}
 Seeds(D) == {t[1] : t \in {u \in RestQuads(D) : u[3] = NIL /\ ListItem(D, u[1]).some}}
 \* preds: object bnode -> subject, toggled on every occurrence (Vacant -> insert, Occupied -> remove)
